@@ -139,6 +139,7 @@ func ZzC17Admission() {
 	zzAssert(got == want, "transport admitted exactly when the reference rule admits it")
 	zzCover("admitted", got)
 	zzCover("refused", !got)
+	zzAssertMustFail(got, "twin: every transport is admitted")
 	// first supported transport in client order
 	tr2 := headers.Transport{Profile: headers.TransportProfileAVP, Protocol: headers.TransportProtocolTCP}
 	picked := pickFirstSupportedTransport(sc, headers.Transports{*tr, tr2})
